@@ -7,7 +7,7 @@ from .. import core, cfgs
 
 S = core.tla_set
 INVS = ("RoundTrip", "NeverDifferent", "AuthRejects", "WrongSecretNeverKey", "RangeRefused", "KcTypeOK")
-KIND_SHARDS = [["sm2"], ["ecdh", "ecdsa", "rsa"], ["sm9sm", "sm9su", "sm9smp"], ["sm9em", "sm9eu", "sm9emp"]]
+KIND_SHARDS = [["sm2"], ["ecdh", "ecdsa", "ecdsa384", "ecdsa521", "rsa"], ["sm9sm", "sm9su", "sm9smp"], ["sm9em", "sm9eu", "sm9emp"]]
 ALL_KINDS = [k for sh in KIND_SHARDS for k in sh]
 
 
@@ -21,28 +21,30 @@ def alt_of(t):
 
 
 def own_guard(ctx, out, cfg):
-    """Deliberately wrong ALLOWED SETS must be reported by the replayer (the hex guard of core covers pubhex/raw bytes)."""
-    want = {"intact": ["Err"], "wrongpw": ["Same", "Different"], "wrongkey": ["Same"], "inject": ["Same", "Different"], "tamper-prot": ["Same", "Different"],
-            "tamper-struct": ["Different"]}
+    """Deliberately wrong ALLOWED SETS must be reported by the replayer (the hex guard of core covers pubhex/raw bytes).
+    One trace per kind of transition is taken among those that CONFORMED under cfg, and its allowed set is replaced by
+    the complement: whatever the library did, it is now outside the set."""
+    cats = ("intact", "wrongpw", "wrongkey", "inject", "tamper-prot", "tamper-struct")
+    failed = {f["idx"] for f in ctx.fails if f.get("cfg") == cfg["label"]}
     picked = {}
-    for line in core._lines(out):
+    for idx, line in enumerate(core._lines(out)):
+        if idx in failed:
+            continue
         t = json.loads(line)
         a = alt_of(t)
+        allowed = [st for st in t["steps"] if st["op"] == "parse"][0]["allowed"]
         if a == "tamper":
-            allowed = t["steps"][3]["allowed"]
             a = "tamper-prot" if allowed == ["Err"] else "tamper-struct" if allowed == ["Same", "Err"] else None
-            if a == "tamper-struct" and t["steps"][2]["mask"] != 1:
-                continue
-        if a in want and a not in picked:
+        if a in cats and a not in picked:
             for st in t["steps"]:
                 if st["op"] == "parse":
-                    st["allowed"] = want[a]
+                    st["allowed"] = [o for o in ("Same", "Err", "Different") if o not in allowed]
             picked[a] = t
-        if len(picked) == len(want):
+        if len(picked) == len(cats):
             break
-    missing = sorted(set(want) - set(picked))
+    missing = sorted(set(cats) - set(picked))
     if missing:
-        raise core.Infra("allowed-set guard: no trace of kind %s in %s" % (missing, out))
+        raise core.Infra("allowed-set guard: no conforming trace of kind %s in %s" % (missing, out))
     gpath = os.path.join(ctx.scratch, "guard-allowed.ndjson")
     with open(gpath, "w") as f:
         for a in sorted(picked):
@@ -69,7 +71,7 @@ def cover_check(ctx, out, quick):
         fmts.add(m["fmt"])
         if a == "tamper":
             regions.add((m["fmt"], t["steps"][2]["region"]))
-        if m["fmt"] == "PKCS8enc" and m["pbes"] == "pbes2" and a == "intact":
+        if m["fmt"] == "PKCS8enc" and m["pbes"] == "pbes2" and a == "intact" and n["kind"] not in ("ecdsa384", "ecdsa521"):
             ciphers.add(m["cipher"]); kdfs.add(m["kdf"]); kinds.add(n["kind"])
             if n["kind"] != "rsa" and n["cls"] != "nMinus1":        # n-1 is a valid class of ECDSA only
                 clss.add(n["cls"])
